@@ -6,6 +6,7 @@
  *                  fail : that write (and every later one) fails with ENOSPC, nothing written
  *                  tear : write the first IOFAULT_BYTES bytes, report them (short write); every
  *                         later write fails with ENOSPC
+ *                  fail-once : only that one write fails with ENOSPC (a transient fault)
  *   IOFAULT_LOG    optional: append "W <index> <offset> <len>" per observed write
  */
 #define _GNU_SOURCE
@@ -56,6 +57,8 @@ ssize_t write(int fd, const void *buf, size_t count) {
             if (part) real_write(fd, buf, part);
             kill(getpid(), SIGKILL);
             for (;;) pause();
+        } else if (!strcmp(mode, "fail-once")) {
+            errno = ENOSPC; r = -1;
         } else if (!strcmp(mode, "fail")) {
             failing = 1; errno = ENOSPC; r = -1;
         } else { /* tear */
